@@ -37,6 +37,7 @@ struct Prepared {
     block: Option<P2pBytes>,
     fork: Option<P2pBytes>,
     set_start: u64,
+    replace_all: bool,   // set_scripts replaces the whole script set (all) instead of adding one script (partial)
 }
 
 fn prepare(plan: &Plan) -> Option<Prepared> { prepare_w(plan, false) }
@@ -90,7 +91,7 @@ fn prepare_w(plan: &Plan, window: bool) -> Option<Prepared> {
     }
     let set_start = w.storage.get_min_filtered_block_number() / 2;
     if window { if let Some(net) = w.net.as_ref() { if let Ok(mut g) = net.peers.matched_blocks().write() { g.clear(); } } }
-    Some(Prepared { w, filters, block, fork, set_start })
+    Some(Prepared { w, filters, block, fork, set_start, replace_all: false })
 }
 
 /// the stored tip is block #1 (no remembered headers below it): a heavier proof without reorg section makes commit_prove_state take
@@ -101,7 +102,8 @@ fn prepare_one(plan: &Plan) -> Option<Prepared> {
     w.exec(&Op::Init);
     w.exec(&Op::Prove { on_fork: false, height: 1 });
     if Unpack::<u64>::unpack(&w.storage.get_tip_header().raw().number()) != 1 { return None; }
-    w.exec(&Op::SetScripts { cmd: 0, list: vec![(0, true, 0), (1, true, 0)] });
+    // (registered above block 1: the rollback resets their numbers, so its batch re-puts every script it read)
+    w.exec(&Op::SetScripts { cmd: 0, list: vec![(0, true, 5), (1, true, 5)] });
     let h = 12u64.min(w.main.tip());
     let peer = w.peer;
     let mut fork = None;
@@ -112,7 +114,7 @@ fn prepare_one(plan: &Plan) -> Option<Prepared> {
         for (_, s) in sent { if let Sent::GetLastStateProof(req) = s { if let Some(resp) = prover::respond(&w.main.chain, &req) { fork = Some(packed::LightClientMessage::new_builder().set(resp).build().as_bytes()); } } }
     }
     fork.as_ref()?;
-    Some(Prepared { w, filters: None, block: None, fork, set_start: 3 })
+    Some(Prepared { w, filters: None, block: None, fork, set_start: 3, replace_all: true })
 }
 
 fn snapshot(storage: &Storage, peers: &Peers, pool: &[packed::Script], numbers: &dyn Fn(&packed::Byte32) -> Option<u64>) -> String {
@@ -145,18 +147,18 @@ fn snapshot(storage: &Storage, peers: &Peers, pool: &[packed::Script], numbers: 
 }
 
 /// what one experiment needs from a prepared client, moved into the threads
-struct Parts { storage: Storage, peers: Arc<Peers>, lc: crate::protocols::LightClientProtocol, fp: crate::protocols::FilterProtocol, sp: crate::protocols::SyncProtocol, lnc: super::ctx::Ctx, fnc: super::ctx::Ctx, snc: super::ctx::Ctx, peer: PeerIndex, pool: Vec<packed::Script>, filters: Option<P2pBytes>, block: Option<P2pBytes>, fork: Option<P2pBytes>, set_start: u64 }
+struct Parts { storage: Storage, peers: Arc<Peers>, lc: crate::protocols::LightClientProtocol, fp: crate::protocols::FilterProtocol, sp: crate::protocols::SyncProtocol, lnc: super::ctx::Ctx, fnc: super::ctx::Ctx, snc: super::ctx::Ctx, peer: PeerIndex, pool: Vec<packed::Script>, filters: Option<P2pBytes>, block: Option<P2pBytes>, fork: Option<P2pBytes>, set_start: u64, replace_all: bool }
 
-enum Runner { Tick(crate::protocols::FilterProtocol, super::ctx::Ctx), Set(Storage, Arc<Peers>, packed::Script, u64), Filters(crate::protocols::FilterProtocol, super::ctx::Ctx, PeerIndex, P2pBytes), Block(crate::protocols::SyncProtocol, super::ctx::Ctx, PeerIndex, P2pBytes), Fork(crate::protocols::LightClientProtocol, super::ctx::Ctx, PeerIndex, P2pBytes) }
+enum Runner { Tick(crate::protocols::FilterProtocol, super::ctx::Ctx), Set(Storage, Arc<Peers>, packed::Script, u64, bool), Filters(crate::protocols::FilterProtocol, super::ctx::Ctx, PeerIndex, P2pBytes), Block(crate::protocols::SyncProtocol, super::ctx::Ctx, PeerIndex, P2pBytes), Fork(crate::protocols::LightClientProtocol, super::ctx::Ctx, PeerIndex, P2pBytes) }
 unsafe impl Send for Runner {}
 
 impl Runner {
     fn go(self) -> bool {
         match self {
-            Runner::Set(storage, peers, script, start) => {
+            Runner::Set(storage, peers, script, start, replace_all) => {
                 let rpc = BlockFilterRpcImpl { swc: StorageWithChainData::new(storage, peers, Default::default()) };
                 let st = crate::service::ScriptStatus { script: script.into(), script_type: crate::service::ScriptType::Lock, block_number: start.into() };
-                catch(|| rpc.set_scripts(vec![st], Some(crate::service::SetScriptsCommand::Partial))).is_some()
+                catch(|| rpc.set_scripts(vec![st], Some(if replace_all { crate::service::SetScriptsCommand::All } else { crate::service::SetScriptsCommand::Partial }))).is_some()
             }
             Runner::Filters(mut fp, nc, p, m) => drive(fp.received(nc.context(), p, m)).is_ok(),
             Runner::Tick(mut fp, nc) => drive(fp.notify(nc.context(), crate::protocols::GET_BLOCK_FILTERS_TOKEN)).is_ok(),
@@ -169,7 +171,7 @@ impl Runner {
 fn take_runner(parts: &mut Option<Parts>, act: Act, slots: &mut (Option<crate::protocols::LightClientProtocol>, Option<crate::protocols::FilterProtocol>, Option<crate::protocols::SyncProtocol>)) -> Option<Runner> {
     let p = parts.as_ref().unwrap();
     match act {
-        Act::SetScripts => Some(Runner::Set(p.storage.clone(), p.peers.clone(), p.pool[2].clone(), p.set_start)),
+        Act::SetScripts => Some(Runner::Set(p.storage.clone(), p.peers.clone(), p.pool[2].clone(), p.set_start, p.replace_all)),
         Act::Filters => { let m = p.filters.clone()?; Some(Runner::Filters(slots.1.take()?, super::ctx::Ctx::new(ckb_network::SupportProtocols::Filter), p.peer, m)) }
         Act::Block => { let m = p.block.clone()?; Some(Runner::Block(slots.2.take()?, super::ctx::Ctx::new(ckb_network::SupportProtocols::Sync), p.peer, m)) }
         Act::Tick => Some(Runner::Tick(crate::protocols::FilterProtocol::new(p.storage.clone(), p.peers.clone()), super::ctx::Ctx::new(ckb_network::SupportProtocols::Filter))),
@@ -178,10 +180,10 @@ fn take_runner(parts: &mut Option<Parts>, act: Act, slots: &mut (Option<crate::p
 }
 
 fn split(prep: Prepared) -> (Parts, (Option<crate::protocols::LightClientProtocol>, Option<crate::protocols::FilterProtocol>, Option<crate::protocols::SyncProtocol>), World) {
-    let Prepared { mut w, filters, block, fork, set_start } = prep;
+    let Prepared { mut w, filters, block, fork, set_start, replace_all } = prep;
     let net = w.net.take().unwrap();
     let Net { storage, peers, lc, fp, sp, lnc, fnc, snc, .. } = net;
-    let parts = Parts { storage: storage.clone(), peers: peers.clone(), lc: crate::protocols::LightClientProtocol::new(storage.clone(), peers.clone(), w.consensus.clone()), fp: crate::protocols::FilterProtocol::new(storage.clone(), peers.clone()), sp: crate::protocols::SyncProtocol::new(storage.clone(), peers.clone()), lnc, fnc, snc, peer: w.peer, pool: w.pool.clone(), filters, block, fork, set_start };
+    let parts = Parts { storage: storage.clone(), peers: peers.clone(), lc: crate::protocols::LightClientProtocol::new(storage.clone(), peers.clone(), w.consensus.clone()), fp: crate::protocols::FilterProtocol::new(storage.clone(), peers.clone()), sp: crate::protocols::SyncProtocol::new(storage.clone(), peers.clone()), lnc, fnc, snc, peer: w.peer, pool: w.pool.clone(), filters, block, fork, set_start, replace_all };
     (parts, (Some(lc), Some(fp), Some(sp)), w)
 }
 
@@ -389,7 +391,7 @@ pub(crate) fn run(seed: u64, n: u64, out: &mut Out) {
                 let mut guard = p.peers.matched_blocks().write().expect("poisoned");
                 std::thread::spawn(move || { let ok = ra.go(); let _ = tx_a.send(ok); });
                 match rx_a.recv_timeout(Duration::from_millis(300)) { Ok(ok) => { finished_early = true; if !ok { problems.push(format!("[C10-handler-panic] {} panicked: {}", a.name(), super::last_panic())); } } Err(_) => {} }
-                p.storage.update_filter_scripts(vec![crate::storage::ScriptStatus { script: p.pool[2].clone(), script_type: ScriptType::Lock, block_number: p.set_start }], crate::storage::SetScriptsCommand::Partial);
+                p.storage.update_filter_scripts(vec![crate::storage::ScriptStatus { script: p.pool[2].clone(), script_type: ScriptType::Lock, block_number: p.set_start }], if p.replace_all { crate::storage::SetScriptsCommand::All } else { crate::storage::SetScriptsCommand::Partial });
                 guard.clear();
             }
             if !finished_early {
